@@ -167,6 +167,7 @@ struct World {
     bgates: HashMap<usize, Gate>,
     calls: usize,
     handed: usize, // request-body bytes handed to handlers
+    handed_cur: usize, // ... of the most recently dispatched request
     pulled: usize, // response-body bytes pulled from handler bodies
     sig: Option<Waker>,
     sig_fired: bool,
@@ -598,6 +599,7 @@ async fn handler(w: W, progs: Rc<Value>, expect: Rc<Value>, mut req: Request) ->
         let ver = if req.version() == actix_http::Version::HTTP_11 { 11 } else if req.version() == actix_http::Version::HTTP_10 { 10 } else { 0 };
         let mut wb = w.borrow_mut();
         wb.calls += 1;
+        wb.handed_cur = 0;
         if !wb.quiet {
             let tok = ex.get("target").and_then(|t| t.as_str()).map(|t| t == target).unwrap_or(false);
             // header multiset: order across different names is not part of the API contract
@@ -632,6 +634,7 @@ async fn handler(w: W, progs: Rc<Value>, expect: Rc<Value>, mut req: Request) ->
                 got += 1;
                 let mut wb = w.borrow_mut();
                 wb.handed += b.len();
+                wb.handed_cur += b.len();
                 if !wb.quiet {
                     wb.ev(json!({"ev":"BodyIn","i":i,"n":b.len(),"ok":ok}));
                 } else {
@@ -740,7 +743,16 @@ impl Future for SigFut {
     }
 }
 
-const POLL_LIMIT: usize = 20000;
+const POLL_LIMIT: usize = 3000;
+
+fn mem_event(w: &mut World) {
+    let (taken, avail, accepted, budget, handed, handed_cur, pulled, calls) = (w.taken, w.avail, w.accepted, w.budget, w.handed, w.handed_cur, w.pulled, w.calls);
+    let live = crate::alloc::live();
+    let peak = crate::alloc::peak();
+    let harness = w.events.capacity() * 64 + w.events.len() * 256;
+    w.note(json!({"ev":"Mem","taken":taken,"avail":avail,"accepted":accepted,"budget":budget,"handed":handed,"handed_cur":handed_cur,
+                  "pulled":pulled,"calls":calls,"live":live,"peak":peak,"harness":harness}));
+}
 
 pub fn run_case(case: &Value) -> Vec<Value> {
     let rt = tokio::runtime::Builder::new_current_thread().enable_time().start_paused(true).build().unwrap();
@@ -782,6 +794,7 @@ pub fn run_case(case: &Value) -> Vec<Value> {
             bgates: HashMap::new(),
             calls: 0,
             handed: 0,
+            handed_cur: 0,
             pulled: 0,
             sig: None,
             sig_fired: false,
@@ -825,9 +838,10 @@ pub fn run_case(case: &Value) -> Vec<Value> {
                     polls += 1;
                     polls_total += 1;
                     if polls > POLL_LIMIT {
-                        world.borrow_mut().ev(json!({"ev":"Livelock","polls":polls}));
-                        done = true;
-                        fut = None;
+                        // the task keeps waking itself without any observable progress: report and
+                        // treat it as quiescent until the next environment step
+                        world.borrow_mut().ev(json!({"ev":"Spin","polls":polls}));
+                        cw.0.store(1, Ordering::SeqCst);
                         break;
                     }
                     let mut cx = Context::from_waker(&waker);
@@ -861,6 +875,9 @@ pub fn run_case(case: &Value) -> Vec<Value> {
         }
 
         let _ = settle!();
+        if cfg.get("mem").and_then(|q| q.as_bool()).unwrap_or(false) {
+            mem_event(&mut world.borrow_mut());
+        }
         let steps = case["steps"].as_array().cloned().unwrap_or_default();
         for st in steps.iter() {
             if done {
@@ -966,10 +983,7 @@ pub fn run_case(case: &Value) -> Vec<Value> {
                     w.note(json!({"ev":"Stall","polls":polls}));
                 }
                 if mem {
-                    let (taken, avail, accepted, budget, handed, pulled, calls) = (w.taken, w.avail, w.accepted, w.budget, w.handed, w.pulled, w.calls);
-                    let live = crate::alloc::live();
-                    let peak = crate::alloc::peak();
-                    w.note(json!({"ev":"Mem","taken":taken,"avail":avail,"accepted":accepted,"budget":budget,"handed":handed,"pulled":pulled,"calls":calls,"live":live,"peak":peak}));
+                    mem_event(&mut w);
                 }
             }
         }
